@@ -23,6 +23,8 @@ REQUIRED_QUICK = [
     # read-mode script: Sync with undrained peer bytes, setReadMode(Async) after the close was observed, live flush
     "tcp_readmode_sync_sessions", "tcp_readmode_flush_after_close_calls", "tcp_readmode_partial_drains", "tcp_readmode_flush_data_events",
     "udp_readmode_sync_sessions", "udp_readmode_flush_after_close_calls",
+    # several logical UDP sessions to one remote address (accept + via / via + via): gauge sampled in their callbacks
+    "udp_via_to_peer_with_open_session",
 ]
 
 # plan kinds / ends as numbered in harness/c02_actors.hpp (used to attribute a close class to the planned origin)
